@@ -232,7 +232,7 @@ def generate(seed, tier):
                 ops.append("sls %s" % rng.choice(["r", "g"]))
             elif u < 0.96:
                 var = "e%d_%d" % (rng.randrange(T), rng.randrange(n)) if rng.random() < 0.85 else rng.choice(["p0_0", "f0", "zz"])
-                o = rng.choice(["r", "r", "r", "r", "l", "g"])
+                o = rng.choice(["r", "r", "r", "g", "g", "l"])
                 dd = rng.choice(["d1", "d1", "d2"])
                 ops.append("%s %s %s" % (dd, o, var))
                 if rng.random() < 0.5:
@@ -283,6 +283,29 @@ def generate(seed, tier):
             else:
                 ops.append("ll %s" % o)
         cases.append(["case bad%d n=%d T=%d" % (i, n, T)] + ops)
+    # ---- deriv: first/second derivatives against the exact derivative (stationary positive tables)
+    n_der = 150 if thorough else 30
+    for i in range(n_der):
+        n = rng.randint(1, 4)
+        T = rng.randint(1, 12)
+        P, F, E = stationary_tables(rng, n, T)
+        ops = stage(n, P, F, E) + ["build r resc 1", "build g log 1"]
+        for _ in range(rng.randint(4, 12)):
+            u = rng.random()
+            var = "e%d_%d" % (rng.randrange(T), rng.randrange(n))
+            if u < 0.55:
+                dd = rng.choice(["d1", "d2"])
+                ops += ["%s r %s" % (dd, var), "%s g %s" % (dd, var)]
+            elif u < 0.7:
+                o = rng.choice(["r", "g"])
+                ops += ["d2 %s %s" % (o, var), "d1 %s %s" % (o, var)]
+            elif u < 0.85:
+                v = h(10.0 ** (-rng.uniform(0, 3)))
+                ops += ["setp r %s %s" % (var, v), "setp g %s %s" % (var, v)]
+            else:
+                bs = " ".join(map(str, rand_breaks(rng, T)))
+                ops += ["brk r " + bs, "brk g " + bs]
+        cases.append(["case deriv%d n=%d T=%d stat" % (i, n, T)] + ops)
     # ---- tm: the built-in transition models
     n_tm = 200 if thorough else 40
     for i in range(n_tm):
